@@ -641,6 +641,37 @@ func ruleAssembly(c *ctx.Ctx, r *core.Reporter) {
 	for _, f := range codeFields {
 		r.Check(writes[f] == 1, "emit-field:"+f, c.Pos(wp.Pos()), fmt.Sprintf("Decl.%s is written %d time(s) by WritePkgCode (want exactly 1)", f, writes[f]))
 	}
+	// the DCE-filtered list: the slice that is appended to under a membership test of the selection
+	// parameter (`if _, ok := <selection>[d]; ok { … filtered = append(filtered, d) }`); its name is free
+	filtered := ""
+	selParam := ""
+	for _, f := range wp.Type.Params.List {
+		if _, isMap := f.Type.(*ast.MapType); isMap && len(f.Names) == 1 {
+			selParam = f.Names[0].Name
+		}
+	}
+	for _, m := range findGoPattern(wp.Body, `if _, µok := µsel[µd]; µok { µµa; µlist = append(µlist, µd); µµb }`) {
+		if m.Env["µsel"] == selParam && selParam != "" {
+			filtered = m.Env["µlist"]
+		}
+	}
+	// and nowhere else
+	otherAppends := 0
+	ast.Inspect(wp.Body, func(n ast.Node) bool {
+		if as, ok := n.(*ast.AssignStmt); ok && len(as.Lhs) == 1 && exprStr(as.Lhs[0]) == filtered && filtered != "" {
+			guarded := false
+			for _, is := range enclosingIfs(wp.Body, as.Pos()) {
+				if is.Init != nil && strings.Contains(exprStr(is.Init.(*ast.AssignStmt).Rhs[0]), selParam+"[") {
+					guarded = true
+				}
+			}
+			if !guarded {
+				otherAppends++
+			}
+		}
+		return true
+	})
+	r.Check(filtered != "" && otherAppends == 0, "filtered-from-selection", c.Pos(wp.Pos()), fmt.Sprintf("the list of declarations to emit (%s) is filled only under `if _, ok := %s[d]; ok` (unguarded stores: %d)", filtered, selParam, otherAppends))
 	// all loops that write code fields range over the DCE-filtered list
 	filteredOK := true
 	detail := ""
@@ -659,26 +690,13 @@ func ruleAssembly(c *ctx.Ctx, r *core.Reporter) {
 			}
 			return true
 		})
-		if writesField && exprStr(rs.X) != "filteredDecls" {
+		if writesField && exprStr(rs.X) != filtered {
 			filteredOK = false
 			detail = "loop at " + c.Pos(rs.Pos()) + " ranges over " + exprStr(rs.X)
 		}
 		return true
 	})
-	r.Check(filteredOK, "emit-only-alive", c.Pos(wp.Pos()), "every loop writing Decl code ranges over filteredDecls. "+detail)
-	// filteredDecls is appended only under the dceSelection membership test
-	appOK := false
-	ast.Inspect(wp.Body, func(n ast.Node) bool {
-		is, ok := n.(*ast.IfStmt)
-		if !ok || is.Init == nil {
-			return true
-		}
-		if strings.Contains(exprStr(is.Init.(*ast.AssignStmt).Rhs[0]), "dceSelection[") && containsIdent(is.Body, "filteredDecls") {
-			appOK = true
-		}
-		return true
-	})
-	r.Check(appOK, "filtered-from-selection", c.Pos(wp.Pos()), "filteredDecls is filled under `if _, ok := dceSelection[d]; ok`")
+	r.Check(filteredOK && filtered != "", "emit-only-alive", c.Pos(wp.Pos()), "every loop writing Decl code ranges over the DCE-filtered list. "+detail)
 	// Decl.minify covers every code field (shared with C16)
 	if mf := c.FuncDecl("compiler", "Decl.minify"); mf != nil {
 		for _, f := range codeFields {
